@@ -23,8 +23,12 @@ Proof. vm_compute. auto. Qed.
 Print Assumptions C20_retry_same_args.
 
 (* both failure kinds reach the except branch: inaccuracy warnings are turned into errors and caught, solver errors are caught *)
+Definition inaccuracy_is_error (to_caller by_module by_text : bool) : bool :=
+  if to_caller then by_text else by_module || by_text.
+
 Theorem C20_failures_caught :
-  smemb "UserWarning" except_types = true /\ smemb "cvxpy.error.SolverError" except_types = true /\ cvxpy_warnings_are_errors = true.
+  smemb "UserWarning" except_types = true /\ smemb "cvxpy.error.SolverError" except_types = true /\
+  inaccuracy_is_error cvxpy_attributes_warnings_to_caller cvxpy_warnings_are_errors inaccuracy_matched_by_text = true.
 Proof. vm_compute. auto. Qed.
 Print Assumptions C20_failures_caught.
 
@@ -61,6 +65,12 @@ Theorem C20_regularised_retry_refuted :
     minimises (objective lambda (scale c l)) b /\ ~ minimises (objective lambda l) b.
 Proof. exact regularised_retry_differs. Qed.
 Print Assumptions C20_regularised_retry_refuted.
+
+(* witness of defect F22: with a cvxpy that attributes its warnings to the calling module (the installed one does), the filter on
+   module="cvxpy" alone does not turn the inaccuracy warning into an error, and nothing is retried *)
+Theorem C20_module_filter_alone_refuted : inaccuracy_is_error true true false = false.
+Proof. reflexivity. Qed.
+Print Assumptions C20_module_filter_alone_refuted.
 
 (* the pre-repair retry call (tau_value=) is rejected by the signature: witness of defect F1 *)
 Theorem C20_unrepaired_call_refuted :
